@@ -41,6 +41,9 @@ pub enum ClientKind {
     Panic { delay_ms: u64 },
     /// a server-sent event stream of `n` messages, `gap_ms` apart: the session is in flight until the stream ends
     Sse { n: u64, gap_ms: u64 },
+    /// fault: asks for a response, never reads a byte of it (its window is smaller than the response, so the server's
+    /// write pends) and gives up after `hold_ms`: a session stuck in its write when the interrupt arrives
+    NeverReads { hold_ms: u64 },
 }
 #[derive(Clone, Debug, Serialize, Deserialize)]
 pub struct ClientPlan {
@@ -84,7 +87,8 @@ pub fn generate(_cfg: &RunCfg, _out: &mut Outcome) -> Scenario {
                 2 => sigint_ms + t::pick(&[0u64, 1, 5, 100]),
                 _ => t::pick(&[1u64, 2, 3, 50, 500]),
             };
-            let kind = match t::weighted(&[4, 3, 2, 2, 2, 2, 2]) {
+            let kind = match t::weighted(&[4, 3, 2, 2, 2, 2, 2, 1]) {
+                7 => ClientKind::NeverReads { hold_ms: t::pick(&[1u64, 50, 5000, 41_000, 43_000, 100_000]) },
                 6 => ClientKind::Sse { n: t::range(0, 5), gap_ms: t::pick(&[0u64, 1, 200, 4000]) },
                 5 => ClientKind::Panic { delay_ms: t::pick(&[0u64, 1, 50, 2000]) },
                 0 if long => ClientKind::Slow { delay_ms: t::pick(&[2000u64, 20_000, 44_000, 46_000, 60_000, 100_000]) },
@@ -353,7 +357,8 @@ fn execute(sc: &Scenario, out: &mut Outcome) {
                 ob.attempt_at = Some(now);
                 ob.listening_at_attempt = open;
             }
-            let mut c = match Client::connect(rt::ADDR, ConnCfg::default()).await {
+            let cfg = if matches!(plan.kind, ClientKind::NeverReads { .. }) { ConnCfg { window: 48, ..ConnCfg::default() } } else { ConnCfg::default() };
+            let mut c = match Client::connect(rt::ADDR, cfg).await {
                 Ok(c) => c,
                 Err(_) => {
                     let mut ob = o.borrow_mut();
@@ -410,6 +415,12 @@ fn execute(sc: &Scenario, out: &mut Outcome) {
                 }
                 ClientKind::Idle { close_after_ms } => {
                     sleep(close_after_ms * MS).await;
+                }
+                ClientKind::NeverReads { hold_ms } => {
+                    c.send(b"GET /fast HTTP/1.1\r\nHost: s\r\n\r\n", 0);
+                    simcore::with(|w| w.count("fault.client_never_reads"));
+                    // nothing is read, so nothing is owed as far as this client can tell; it goes away by itself
+                    sleep(hold_ms * MS).await;
                 }
                 ClientKind::Half { rest_after_ms } => {
                     c.send(b"GET /fast HT", 0);
@@ -589,6 +600,11 @@ fn execute(sc: &Scenario, out: &mut Outcome) {
             if cs > sds {
                 out.violate("stops-accepting", "accepted-after-return", format!("client {i} was accepted at step {cs}, after howl returned at step {sds}"));
                 return;
+            }
+        }
+        if let ClientKind::NeverReads { hold_ms } = plan.kind {
+            if plan.start_ms <= sc.sigint_ms && sc.sigint_ms < plan.start_ms + hold_ms.min(42_000) {
+                out.probe("c18.session_stuck_in_its_write_at_the_interrupt");
             }
         }
         if ob.sent_complete_request {
